@@ -101,7 +101,7 @@ def coq_build(pid, extra_targets=()):
         return False, out + err
     targets = [f"{pid}/Properties.vo", f"{pid}/Extract.vo"] + list(extra_targets)
     targets = [t for t in targets if (COQ / t[:-1]).exists()]
-    cmd = ["flock", ".build.lock", "timeout", "3000", "make", "-k", "-j16"] + targets
+    cmd = ["timeout", "3000", "make", "-k", "-j16"] + targets
     rc, out, err = sh(cmd, cwd=COQ, timeout=3100)
     return rc == 0, (out + err)[-6000:]
 
@@ -319,13 +319,17 @@ def analyse(cases, impl_lines, model_lines, known, variant):
 
 def write_replay(pid, n, payload):
     REPLAY.mkdir(exist_ok=True)
+    if isinstance(payload, dict):
+        payload.setdefault("part", pid)
     path = REPLAY / f"{pid}-{n}.json"
     path.write_text(json.dumps(payload, indent=1))
     return path
 
 
-def run_check(pid, tier="quick", seed=0, replay=None):
+def run_part(pid, tier="quick", seed=0, replay=None, report_pid=None):
+    """runs one package (props/<pid>, coq/<pid>); violations are reported under report_pid"""
     t0 = time.time()
+    rpid = report_pid or pid
     prop = load_prop(pid)
     known = load_known(pid)
     violations = []      # (kind, text, replay payload, found_input: bool)
@@ -385,7 +389,7 @@ def run_check(pid, tier="quick", seed=0, replay=None):
         if not cases:
             print(json.dumps(payload, indent=1))
             bad = True
-        return 1 if bad else 0
+        return (1 if bad else 0), None
 
     # ---- 3. cases
     rng = random.Random(seed * 1000003 + 17)
@@ -447,7 +451,7 @@ def run_check(pid, tier="quick", seed=0, replay=None):
             still = (L["impl"] == k.get("impl")) and (L["impl"] == L["model"])
             if still and k["id"] not in reported_known:
                 reported_known.add(k["id"])
-                print(f"KNOWN-FINDING: property={pid} {k['id']}: {k['what']} [witness: {k['witness']} -> {L['impl']}; expected {k.get('expected', L['reference'])}]")
+                print(f"KNOWN-FINDING: property={rpid} {k['id']}: {k['what']} [witness: {k['witness']} -> {L['impl']}; expected {k.get('expected', L['reference'])}]")
             elif not still and L["impl"] != L["model"]:
                 pass  # shows up as a correspondence break below
         # direct property failures (impl vs reference/spec) that are not the recorded defects
@@ -463,7 +467,7 @@ def run_check(pid, tier="quick", seed=0, replay=None):
                       "failing_cases_same_op": len(idxs)})
             nrep += 1
             path = write_replay(pid, nrep, L)
-            violations.append((f"VIOLATION property={pid} replay={path}", True))
+            violations.append((f"VIOLATION property={rpid} replay={path}", True))
         # correspondence breaks with no failing input among them
         corr_only = [i for i in r["corr"] if i not in set(r["prop"])]
         if corr_only and not r["prop"]:
@@ -475,14 +479,14 @@ def run_check(pid, tier="quick", seed=0, replay=None):
                               "correspondence_break": L})
                 nrep += 1
                 path = write_replay(pid, nrep, found)
-                violations.append((f"VIOLATION property={pid} replay={path}", True))
+                violations.append((f"VIOLATION property={rpid} replay={path}", True))
             else:
                 L.update({"property": pid, "kind": "correspondence model<->code no longer checks",
                           "no_longer_checks": f"correspondence leg impl[{vname}] = extracted model on op {cases[i].split(' ',1)[0]}",
                           "disagreeing_cases": len(corr_only), "seed": seed})
                 nrep += 1
                 path = write_replay(pid, nrep, L)
-                violations.append((f"VIOLATION property={pid} replay={path} no-failing-input-found", False))
+                violations.append((f"VIOLATION property={rpid} replay={path} no-failing-input-found", False))
         elif corr_only:
             notes.append(f"{len(corr_only)} further correspondence breaks without direct property failure (variant {vname})")
         if r["specval"]:
@@ -507,9 +511,9 @@ def run_check(pid, tier="quick", seed=0, replay=None):
                 nrep += 1
                 path = write_replay(pid, nrep, item.get("payload", {}))
                 tail = "" if item.get("found_input", True) else " no-failing-input-found"
-                violations.append((f"VIOLATION property={pid} replay={path}{tail}", item.get("found_input", True)))
+                violations.append((f"VIOLATION property={rpid} replay={path}{tail}", item.get("found_input", True)))
             elif item["kind"] == "known":
-                print(f"KNOWN-FINDING: property={pid} {item['text']}")
+                print(f"KNOWN-FINDING: property={rpid} {item['text']}")
             else:
                 notes.append(item["text"])
         evid_extra.update(getattr(ctx, "evidence", {}))
@@ -521,7 +525,7 @@ def run_check(pid, tier="quick", seed=0, replay=None):
             payload.update(found)
         nrep += 1
         path = write_replay(pid, nrep, payload)
-        violations.append((f"VIOLATION property={pid} replay={path}" + ("" if found else " no-failing-input-found"), bool(found)))
+        violations.append((f"VIOLATION property={rpid} replay={path}" + ("" if found else " no-failing-input-found"), bool(found)))
     elif broken_obl:
         notes.append("broken obligations: " + "; ".join(broken_obl)[:2000])
 
@@ -571,9 +575,57 @@ def run_check(pid, tier="quick", seed=0, replay=None):
         "violations": len(violations),
     }
     evidence["coverage"].update(evid_extra)
+    return (1 if violations else 0), evidence
+
+
+def run_check(pid, tier="quick", seed=0, replay=None):
+    """a property is one package, or several (props/<pid>/prop.py declares PARTS = [...])"""
+    t0 = time.time()
+    parts = [pid]
+    pfile = ROOT / "props" / pid / "prop.py"
+    if pfile.exists():
+        m = re.search(r"^PARTS\s*=\s*(\[.*?\])", pfile.read_text(), flags=re.M | re.S)
+        if m:
+            parts = json.loads(m.group(1).replace("'", '"'))
+    if replay is not None:
+        payload = json.loads(Path(replay).read_text())
+        part = payload.get("part", parts[0] if len(parts) == 1 else None)
+        if part is None:
+            part = Path(replay).name.rsplit("-", 1)[0]
+        rc, _ = run_part(part, tier, seed, replay, report_pid=pid)
+        return rc
+    rcs = []
+    evs = []
+    for part in parts:
+        rc, ev = run_part(part, tier, seed, None, report_pid=pid)
+        rcs.append(rc)
+        evs.append((part, ev))
+    if len(evs) == 1:
+        evidence = evs[0][1]
+        evidence["property_id"] = pid
+    else:
+        cov = {"obligations": 0, "discharged": 0, "evaluations": 0, "distinct_nontrivial": 0,
+               "traces_validated_against_impl": 0, "samples": [], "theorems": [], "trusted_base": [],
+               "broken_obligations": [], "parts": {}, "exhaustive": False}
+        for part, ev in evs:
+            c = ev["coverage"]
+            for k in ("obligations", "discharged", "evaluations", "distinct_nontrivial", "traces_validated_against_impl"):
+                cov[k] += c.get(k, 0)
+            cov["samples"] += c.get("samples", [])[:5]
+            cov["theorems"] += c.get("theorems", [])
+            cov["broken_obligations"] += c.get("broken_obligations", [])
+            for t in c.get("trusted_base", []):
+                if t not in cov["trusted_base"]:
+                    cov["trusted_base"].append(t)
+            cov["parts"][part] = {k: v for k, v in c.items() if k not in ("samples", "theorems", "trusted_base")}
+        cov["checker_cmd"] = "; ".join(ev["coverage"]["checker_cmd"] for _, ev in evs)
+        cov["rule"] = " || ".join(f"[{part}] " + ev["coverage"].get("rule", "") for part, ev in evs)
+        evidence = {"property_id": pid, "tier": tier, "seed": seed, "level": evs[0][1]["level"], "coverage": cov,
+                    "assumptions": sorted({a for _, ev in evs for a in ev.get("assumptions", [])}),
+                    "wall_s": round(time.time() - t0, 2), "violations": sum(ev.get("violations", 0) for _, ev in evs)}
     EVID.mkdir(exist_ok=True)
     (EVID / f"{pid}.json").write_text(json.dumps(evidence, indent=1))
-    return 1 if violations else 0
+    return 1 if any(rcs) else 0
 
 
 def search_failing(prop, exes, known, seed, tier, budget_s=90):
